@@ -13,8 +13,8 @@ from typing import Any, Callable
 VERIF = Path(__file__).resolve().parent.parent
 REPO = Path(os.environ.get("MXLPY_REPO", "/repo"))
 SRC = REPO / "src" / "mxlpy"
-EVIDENCE_DIR = VERIF / "evidence"
-REPLAY_DIR = VERIF / "replays"
+EVIDENCE_DIR = Path(os.environ.get("VERIF_EVIDENCE_DIR", VERIF / "evidence"))
+REPLAY_DIR = Path(os.environ.get("VERIF_REPLAY_DIR", VERIF / "replays"))
 KNOWN_FINDINGS = VERIF / "known_findings.jsonl"
 
 EXIT_HELD, EXIT_VIOLATION, EXIT_UNDECIDED, EXIT_ERROR = 0, 1, 2, 3
